@@ -1,15 +1,69 @@
 """Property -> engines/scenarios table (the single place that says what decides what)."""
 
 ENGINES = {
-    "seqx": {"dir": "engines/seqx", "target": "target-seqx", "bin": "seqx", "args": []},
+    "seqx": {"dir": "engines/seqx", "target": "target-seqx", "bin": "seqx", "args": [], "real_impl": True,
+             "kind": "explicit-state / bounded-exhaustive exploration of the real crate; every trace runs in a freshly forked child (or on a fresh thread of one, where no process-global state is involved)"},
 }
 
-REAL = "every trace is executed on the real open-coroutine-core crate (built from /repo with --features verif) in a freshly forked child"
+REAL = "every trace is executed on the real open-coroutine-core crate (built from /repo's working tree with --features verif)"
+CLOCK = "time is a virtual clock owned by the harness (hook in common::now and in the runtime's own blocking primitives)"
+
+def seqx(*scenarios):
+    return {"engine": "seqx", "scenarios": list(scenarios)}
 
 CHECKS = {
+    "C07": {
+        "parts": [seqx("c07.raw", "c10.sched")],
+        "design_ref": "DESIGN.md §5 C07",
+        "technique": "explicit-state search over (coroutine program x driver history) on the real coroutine, dedup on (state, pc, clock); recording-listener oracle against the documented graph",
+        "level_text": "every reachable (state, pc, clock) of every program up to the bound is visited on the real Coroutine/Scheduler and the complete listener report list is checked in each; bounded model checking of the implementation itself",
+        "level_note": "bounds: program length, driver depth (printed in evidence). Programs that return while still in a Syscall state are treated as ill-formed and pruned.",
+        "rule": "BFS per program over driver ops {Resume,Advance,Running,SysTimeout,SysCallback,SysExec} (raw) and {Pass,Advance,Cancel} (scheduler); a state is non-trivial if the program has >= 2 steps / >= 2 coroutines",
+        "assumptions": [REAL, CLOCK],
+    },
+    "C08": {
+        "parts": [seqx("c08.values")],
+        "design_ref": "DESIGN.md §5 C08",
+        "technique": "bounded-exhaustive enumeration of bodies (0..3 suspend points) x payload tuples x endings x listener modes on the real typed coroutine",
+        "level_text": "all payload tuples over a boundary alphabet for bodies with up to 3 suspend points are executed on the real coroutine; value echo in both directions, completion-once and panic message are checked for each",
+        "level_note": "value alphabet {0,1,-1,i64::MAX,i64::MIN}; n=3 uses a 3-value alphabet",
+        "rule": "cases = (args tuple, yields tuple, return | panic at step k with payload kind, listener mode); non-trivial = at least one suspend point",
+        "assumptions": [REAL],
+    },
     "C09": {
-        "parts": [{"engine": "seqx", "scenarios": ["c09.seq"]}],
+        "parts": [seqx("c09.seq")],
+        "design_ref": "DESIGN.md §5 C09",
+        "technique": "bounded-exhaustive enumeration of 1..3 coroutine programs x all resume interleavings on one thread",
+        "level_text": "every program tuple up to the bound under every resume interleaving is executed on the real coroutines; the state reported by each resume is compared with what that yield requested",
+        "level_note": "bounds printed in evidence; a cancel requested from inside a syscall state may be reported either way for the requester itself",
         "rule": "all programs over {Suspend,Delay0,Until,Cancel,SysYield,SysCancel} up to the stated length for 1..3 coroutines x all resume interleavings; non-trivial = case with >= 2 coroutines (distinct by programs+order)",
         "assumptions": [REAL, "virtual clock fixed at t=1000ns so that every requested timestamp is due"],
+    },
+    "C10": {
+        "parts": [seqx("c10.sched")],
+        "design_ref": "DESIGN.md §5 C10",
+        "technique": "explicit-state search over driver histories {Pass,Advance,Cancel} per configuration of 1..3 coroutine programs on the real Scheduler under a virtual clock, each history driven to quiescence",
+        "level_text": "every distinct observable scheduler state reachable within the depth bound is visited on the real Scheduler; exactly-once results, no early resume, first-pass-after-due and cancel isolation are checked in every state and at quiescence",
+        "level_note": "bounds printed in evidence; one scheduler, one thread",
+        "rule": "BFS with dedup on per-coroutine (steps executed, pending wake offset, cancelled, finished); non-trivial = configuration with >= 2 coroutines",
+        "assumptions": [REAL, CLOCK],
+    },
+    "C25": {
+        "parts": [seqx("c25.local")],
+        "design_ref": "DESIGN.md §5 C25",
+        "technique": "exhaustive enumeration of all put/get/get_mut/remove histories (2 keys x 2 coroutines) up to the depth bound against a HashMap reference with drop counters",
+        "level_text": "all 16^d histories for d <= depth are executed on real coroutines' local storage and compared step by step with a HashMap reference; drop counters are exact after every step and after dropping the coroutines",
+        "level_note": "depth 4 (quick) / 5 (thorough); one value type",
+        "rule": "all operation sequences over 16 operations up to the depth; every history is distinct",
+        "assumptions": [REAL],
+    },
+    "C28": {
+        "parts": [seqx("c28.helpers")],
+        "design_ref": "DESIGN.md §5 C28",
+        "technique": "small-scope exhaustive enumeration plus boundary alphabet of get_slices / get_timeout_time / socket time limits on the real functions",
+        "level_text": "small-scope exhaustive (all totals 0..=64 x slices 1..=8) plus boundary values around u64::MAX ns and timeval extremes; not all of 2^64 (a solver's job, a different family)",
+        "level_note": "get_time_limit is reached through the hooked setsockopt + recv/send_time_limit on a fresh socket per value",
+        "rule": "one case per (total, slice) / (now, duration) / (tv_sec, tv_usec, option); every case is distinct",
+        "assumptions": [REAL, CLOCK],
     },
 }
